@@ -6,6 +6,7 @@ package main
 
 import (
 	"fmt"
+	"os"
 	"go/types"
 	"regexp"
 	"time"
@@ -21,6 +22,15 @@ func (in *Interp) newNondet(kind string, s Sort) *Term {
 	name := fmt.Sprintf("v%d_%s", len(p.Nondets), kind)
 	v := in.ts.Var(name, s)
 	p.Nondets = append(p.Nondets, NondetRec{Kind: kind, Var: v})
+	return v
+}
+
+// newAux creates an engine-internal existential variable (not part of the replay vector).
+func (in *Interp) newAux(kind string, s Sort) *Term {
+	p := in.path
+	name := fmt.Sprintf("w%d_%s", len(p.Aux), kind)
+	v := in.ts.Var(name, s)
+	p.Aux = append(p.Aux, v)
 	return v
 }
 
@@ -101,6 +111,10 @@ func (in *Interp) registerIntrinsics(reg func(string, extFn)) {
 	r("vfSteps", func(in *Interp, fr *frame, fn *ssa.Function, args []Value) Value {
 		return in.mkInt(in.path.Steps)
 	})
+	r("vfIntArith", func(in *Interp, fr *frame, fn *ssa.Function, args []Value) Value {
+		in.path.IntMode = true
+		return nil
+	})
 	r("vfSymbolic", func(in *Interp, fr *frame, fn *ssa.Function, args []Value) Value {
 		return ts.True
 	})
@@ -172,8 +186,18 @@ func (in *Interp) assert(fr *frame, c *Term, msg string) {
 			in.stats.AssertTrivial++
 			return
 		}
-		in.recordViolation("assert", msg, nil, fr)
-		panic(pathEnd{Kind: "done", Msg: "assertion failed concretely: " + msg})
+		switch in.check(p.PC) {
+		case Sat:
+			in.captureModel()
+			in.endQuery()
+			in.recordViolation("assert", msg, p.LastModel, fr)
+			panic(pathEnd{Kind: "done", Msg: "assertion failed concretely: " + msg})
+		case Unsat:
+			panic(pathEnd{Kind: "infeasible", Msg: "path condition unsatisfiable (found at concrete assertion)"})
+		default:
+			p.Inconclusive = append(p.Inconclusive, "assertion false on a path whose feasibility is unknown: "+msg)
+			panic(pathEnd{Kind: "done", Msg: "assertion failed on path of unknown feasibility: " + msg})
+		}
 	}
 	if v, ok := in.known(c); ok && v {
 		p.AssertsTriv++
@@ -182,7 +206,7 @@ func (in *Interp) assert(fr *frame, c *Term, msg string) {
 	neg := in.ts.Not(c)
 	conj := append(append([]*Term{}, p.PC...), neg)
 	in.stats.AssertQ++
-	res := in.solver.Check(conj)
+	res := in.check(conj)
 	switch res {
 	case Unsat:
 		p.AssertsOK++
@@ -192,7 +216,7 @@ func (in *Interp) assert(fr *frame, c *Term, msg string) {
 		in.addPC(c)
 	case Sat:
 		in.captureModel()
-		in.solver.EndQuery()
+		in.endQuery()
 		in.recordViolation("assert", msg, p.LastModel, fr)
 		// continue under the assumption that the assertion holds, if possible
 		if in.feasible(c) == Unsat {
@@ -201,6 +225,10 @@ func (in *Interp) assert(fr *frame, c *Term, msg string) {
 		in.addPC(c)
 	default:
 		p.Inconclusive = append(p.Inconclusive, "assert unknown: "+msg)
+		if d := os.Getenv("SYMGO_DUMP"); d != "" {
+			in.dumpN++
+			os.WriteFile(fmt.Sprintf("%s/unknown-%d-%d.smt2", d, os.Getpid(), in.dumpN), []byte(in.cur.Script(conj)), 0o644)
+		}
 		in.addPC(c)
 	}
 }
@@ -210,8 +238,12 @@ func (in *Interp) crossCheck(conj []*Term, msg string) {
 	if in.cfg.CrossEvery > 1 && in.xcN%in.cfg.CrossEvery != 0 {
 		return
 	}
-	script := in.solver.Script(conj)
-	r, out := OneShot(in.cfg.CrossCheck, script, in.cfg.TimeoutMs)
+	script := in.cur.Script(conj)
+	other := in.cfg.CrossCheck
+	if in.cur == in.isolver {
+		other = "cvc5" // INT-encoded queries are decided by z3-new, cross-checked by cvc5
+	}
+	r, out := OneShot(other, script, in.cfg.TimeoutMs)
 	in.xcDone++
 	if r == Sat {
 		in.path.Inconclusive = append(in.path.Inconclusive, fmt.Sprintf("SOLVER DISAGREEMENT on %q: %s says sat: %s", msg, in.cfg.CrossCheck, firstLine(out)))
